@@ -538,12 +538,22 @@ func Main(t *testing.T, c *Check) {
 				}
 				if c.Enumerate != nil {
 					ok := true
+					var emu sync.Mutex
+					// run may be called from several goroutines of the enumerator; scenarios execute
+					// concurrently, bookkeeping is serialised
 					enumDesc = c.Enumerate(tier, func(s *Scn) *Outcome {
+						emu.Lock()
 						if !ok {
+							emu.Unlock()
 							return NewOutcome()
 						}
+						emu.Unlock()
 						o := safeRun(c, t, s)
-						ok = handle(s, o, "enum")
+						emu.Lock()
+						defer emu.Unlock()
+						if ok {
+							ok = handle(s, o, "enum")
+						}
 						return o
 					})
 					if !ok {
